@@ -106,19 +106,19 @@ macro "item_cases " it:ident " then " tac:tactic : tactic => `(tactic|
       cases $it:ident with
       | x rc rq rs org =>
         cases rq <;> cases rs <;> cases org <;>
-          (simp [handleItem, handleX, pre, stAfter, rqErr, rqSkip, rsErr, countP, Item.rq, Item.rs, Item.hij,
+          (simp [handleItem, handleX, pre, stAfter, afterReq, rqErr, rqSkip, rsErr, countP, Item.rq, Item.rs, Item.hij,
             isRead, isReqmod, isResmod, isUpstream, isWrite, isWarnReq, isWarnRes, isWarnRt, isHijacked, *] <;> $tac)
       | connectMitm tls rq rs =>
         cases rq <;> cases rs <;> cases tls <;>
-          (simp [handleItem, handleMitm, pre, stAfter, rqErr, rqSkip, rsErr, countP, Item.rq, Item.rs, Item.hij,
+          (simp [handleItem, handleMitm, pre, stAfter, afterReq, rqErr, rqSkip, rsErr, countP, Item.rq, Item.rs, Item.hij,
             isRead, isReqmod, isResmod, isUpstream, isWrite, isWarnReq, isWarnRes, isWarnRt, isHijacked, *] <;> $tac)
       | connectBlind ok rq rs =>
         cases rq <;> cases rs <;> cases ok <;>
-          (simp [handleItem, handleBlind, pre, stAfter, rqErr, rqSkip, rsErr, countP, Item.rq, Item.rs, Item.hij,
+          (simp [handleItem, handleBlind, pre, stAfter, afterReq, rqErr, rqSkip, rsErr, countP, Item.rq, Item.rs, Item.hij,
             isRead, isReqmod, isResmod, isUpstream, isWrite, isWarnReq, isWarnRes, isWarnRt, isHijacked, *] <;> $tac)
       | connectMitmFail rq rs =>
         cases rq <;> cases rs <;>
-          (simp [handleItem, handleMitmFail, pre, stAfter, rqErr, rqSkip, rsErr, countP, Item.rq, Item.rs, Item.hij,
+          (simp [handleItem, handleMitmFail, pre, stAfter, afterReq, rqErr, rqSkip, rsErr, countP, Item.rq, Item.rs, Item.hij,
             isRead, isReqmod, isResmod, isUpstream, isWrite, isWarnReq, isWarnRes, isWarnRt, isHijacked, *] <;> $tac))
 
 macro "item_cases " it:ident : tactic => `(tactic| item_cases $it then skip)
